@@ -138,7 +138,7 @@ theorem idChar_props (c : Char) (h : (isIdStart c || isIdCont c) = true) :
     | true =>
       exfalso
       simp only [isSpace, Bool.or_eq_true, decide_eq_true_eq] at hs
-      rcases hs with ((((hs | hs) | hs) | hs) | hs) | hs <;> subst hs <;> revert h <;> decide
+      rcases hs with (((((((((hs | hs) | hs) | hs) | hs) | hs) | hs) | hs) | hs) | hs) <;> subst hs <;> revert h <;> decide
   · intro e; subst e; revert h; decide
   · intro e; subst e; revert h; decide
   · intro e; subst e; revert h; decide
